@@ -534,7 +534,12 @@ def check_cases(ctx, cases, table_runtime_check=None):
                     if fmt == "zip" and fmt_of(c["name"]) == "zip" and r["comp"]["decoded"] is not None \
                             and r["comp"]["member"] != member_py(c):
                         diffs.append(f"zip member {r['comp']['member']!r}, decompress will look for {member_py(c)!r}")
-            if c["dec"]:
+            # a compress block that failed while the archive was being written leaves a target of unspecified content (what the
+            # failing writer had flushed: possibly nothing); what the codec makes of such a file is outside its hypothesis
+            # (gzip reads an EMPTY file as an empty stream, bz2 / lzma / zipfile reject it) -- the decompress step after it is
+            # judged by the clauses above only, not compared with the model's toy codec
+            partial_archive = bool(c["comp"] and r["comp"].get("raised") and r["comp"].get("t_exists") and not r["comp"].get("t_same"))
+            if c["dec"] and not partial_archive:
                 iv, idc = obs_dec(r["dec"])
                 if c["target"] == c["name"] and iv[1] == 1 and mdv[1] == 3:
                     iv[1] = 3                     # target = the archive itself: both readings of the yielded path agree
